@@ -2,7 +2,7 @@
    Statements only; proofs are in proofs/ReportProof.v. *)
 From Coq Require Import List String NArith ZArith Bool Permutation.
 Import ListNotations.
-From Solstat Require Import Bytes Tables Sections Report ReportReader ReportProof.
+From Solstat Require Import Bytes Tables Sections Report ReportReader ReportProof ReportFullFinite ReportFull.
 Local Open Scope string_scope.
 Local Open Scope list_scope.
 
@@ -30,6 +30,35 @@ Theorem total_is_number_of_findings_vulnerabilities : forall F : findings Vulner
   printed_total vul_overview_prefix (generate_vulnerability_report F) = Some (N.of_nat (List.length (triples F))).
 Proof. exact vul_total_findings. Qed.
 Print Assumptions total_is_number_of_findings_vulnerabilities.
+
+(* ---- a category part of the report file is present iff that category has findings.
+        The vulnerability and optimization parts start with their overview heading line
+        ("# Gas Optimizations - (Total Vulnerabilities n)" / "(Total Optimizations n)"); the QA
+        overview is a blank line, so the QA part is observed through its sections. *)
+Theorem category_iff_vulnerabilities : forall V O Q, wf_findings V -> wf_findings O -> wf_findings Q ->
+  (has_line_starting vul_overview_prefix (generate_report V O Q) <-> exists p, has_finding p V).
+Proof. exact category_iff_vul. Qed.
+Print Assumptions category_iff_vulnerabilities.
+
+Theorem category_iff_optimizations : forall V O Q, wf_findings V -> wf_findings O -> wf_findings Q ->
+  (has_line_starting opt_overview_prefix (generate_report V O Q) <-> exists p, has_finding p O).
+Proof. exact category_iff_opt. Qed.
+Print Assumptions category_iff_optimizations.
+
+Theorem category_iff_qa_sections : forall V O Q, wf_findings V -> wf_findings O -> wf_findings Q ->
+  ((exists q, has_line (key_line (qa_section q)) (generate_report V O Q)) <-> exists q, has_finding q Q).
+Proof. exact category_iff_qa. Qed.
+Print Assumptions category_iff_qa_sections.
+
+(* the file is the three parts in the order vulnerabilities, optimizations, QA, each present iff
+   its map is non-empty and followed by a blank line pair *)
+Theorem category_blocks : forall V O Q,
+  generate_report V O Q =
+  ((if nonempty_map V then generate_vulnerability_report V ++ nl ++ nl else "") ++
+   (if nonempty_map O then generate_optimization_report O ++ nl ++ nl else "") ++
+   (if nonempty_map Q then generate_qa_report Q ++ nl ++ nl else ""))%string.
+Proof. exact report_blocks. Qed.
+Print Assumptions category_blocks.
 
 (* ---- severities: the regenerated table (second component of the arms of
         get_vulnerability_report_section) is the one the property demands:
